@@ -40,11 +40,20 @@ RULE = ('(a) primitive cases: sample sequence (unsorted, duplicate times with di
         'modules against names derived from their templates; (j) ConcatenatedSensorCache.get of a sensor absent from 1+ of '
         '2-4 parts whose other parts hold a float / int / bool array assigned directly or a float / int / bool / str '
         'getter, with initial_value float / int / bool / str (also empty) and categorical None / True / False, selected and '
-        'not; (k) visdatav4 applied_delay / applied_phase from 1-5 CBF updates (before, between and after the dumps). '
+        'not; (k) visdatav4 applied_delay / applied_phase from 1-5 CBF updates (before, between and after the dumps); '
+        '(l) num: one float / int / bool sensor through SensorCache.get / cache[name] with categorical absent / False / True '
+        'and an initial_value (float, int, bool, str) given as keyword, name entry or wildcard entry, samples before / at / '
+        'long after the first dump, all statuses, duplicates, empty - kind, dtype, values, cached result, raw samples, and '
+        'the same cache read without the initial_value; (m) azel: the real VIRTUAL_SENSORS of h5datav1/2/3 and visdatav4 '
+        'on a cache with raw az / el source getters of 1-2 antennas, histories over az, el, mjd, the sources and unknown '
+        'names under changing selections, every cached array compared afterwards; (n) np.interp of linearly converted samples. '
         'A case is non-trivial when at '
         'least one numeric extraction with >= 2 usable samples (or a dummy fill, or a non-empty virtual sensor) is compared; '
         'distinct by canonical JSON')
-ASSUMPTIONS = ['float64 exactness domain: times on a 1/4 s grid (epoch 0 or 1.5e9), node gaps <= 24 grid steps, values '
+ASSUMPTIONS = ['az / el (katpoint.deg2rad of the source sensor) are compared with the exact rational x * pi64 / 180 of the model '
+               'within 4e-16 relative (the roundings of pi / 180 and of one product); bool / small-integer samples (values '
+               '0/1, -3..9, eighths) within 1e-12 absolute because slopes 1/d are not dyadic; everything else for equality',
+               'float64 exactness domain: times on a 1/4 s grid (epoch 0 or 1.5e9), node gaps <= 24 grid steps, values '
                'integer multiples of lcm(1..24) below 2^44 so that np.interp is exact and equality is compared',
                'categorical conversion itself is C10: only the decision categorical/numeric and the dummy value are compared',
                'virtual sensor templates lie in the regex subset of the registered ones (literals [A-Za-z0-9_/], classes of such '
@@ -1663,6 +1672,9 @@ def run_case(ctx, case):
     if case.get('kind') in ('api', 'registry', 'fill', 'v4delay'):
         from props import c12_ext
         return c12_ext.run_case(ctx, case)
+    if case.get('kind') in ('num', 'azel'):
+        from props import c12_num
+        return c12_num.run_case(ctx, case)
     if case.get('kind') == 'unpack':
         return run_unpack(ctx, case)
     if case.get('kind') == 'builtin':
@@ -1755,6 +1767,8 @@ def run(ctx):
         ctx.count('concat_parts=%d' % len(cs))
     from props import c12_ext
     c12_ext.run(ctx)
+    from props import c12_num
+    c12_num.run(ctx)
     if ctx.tier == 'thorough':
         cross_check_in_coq(ctx)
 
@@ -1789,6 +1803,6 @@ def replay(ctx, doc):
     logging.getLogger('katdal').setLevel(logging.ERROR)
     case = doc.get('case') or doc.get('witness') or {}
     if case.get('kind') in ('single', 'wild', 'concat', 'primitive', 'unpack', 'props', 'builtin', 'dataset', 'api', 'registry',
-                            'fill', 'v4delay'):
+                            'fill', 'v4delay', 'num', 'azel'):
         run_case(ctx, case)
         ctx.note_case(('replay', json.dumps(case, sort_keys=True, default=str)))
